@@ -63,6 +63,23 @@ func program(name, server string) (setup, burst [][]byte, files map[string]strin
 		setup = [][]byte{mustPkt(&sshFxpOpenPacket{ID: 1, Path: nm("f"), Pflags: sshFxfRead})}
 		burst = [][]byte{rd(10, "1", 0, 2), mustPkt(&sshFxpMkdirPacket{ID: 11, Path: nm("newdir")}), mustPkt(&sshFxpRmdirPacket{ID: 12, Path: nm("newdir")}),
 			mustPkt(&sshFxpRemovePacket{ID: 13, Filename: nm("g")}), mustPkt(&sshFxpFstatPacket{ID: 14, Handle: "1"}), rd(15, "1", 2, 2)}
+	case "reads6": // more parallel requests in flight than there are workers (at W=2): responses pile up behind a slow first one
+		setup = [][]byte{mustPkt(&sshFxpOpenPacket{ID: 1, Path: nm("f"), Pflags: sshFxfRead})}
+		burst = [][]byte{rd(10, "1", 0, 2), rd(11, "1", 2, 2), rd(12, "1", 4, 2), rd(13, "1", 6, 2), rd(14, "1", 8, 2), rd(15, "1", 10, 2)}
+	case "bigread": // servers configured with a maximum payload above the 256 KiB frame limit: replies larger than a frame
+		big := make([]byte, 400000)
+		for i := range big {
+			big[i] = byte('a' + i%23)
+		}
+		files[nm("f")] = string(big)
+		setup = [][]byte{mustPkt(&sshFxpOpenPacket{ID: 1, Path: nm("f"), Pflags: sshFxfRead})}
+		burst = [][]byte{rd(10, "1", 1000, 300000), mustPkt(&sshFxpFstatPacket{ID: 11, Handle: "1"}), rd(12, "1", 0, 262144), rd(13, "1", 399000, 300000),
+			mustPkt(&sshFxpClosePacket{ID: 14, Handle: "1"})}
+	case "pathkeep": // the path of an OPEN outlives its packet: later requests reuse the receive buffers, then the handle's path is needed again
+		setup = [][]byte{mustPkt(&sshFxpOpenPacket{ID: 1, Path: nm("f"), Pflags: sshFxfRead}),
+			mustPkt(&sshFxpStatPacket{ID: 2, Path: nm("g")}), mustPkt(&sshFxpStatPacket{ID: 3, Path: nm("g")}), mustPkt(&sshFxpLstatPacket{ID: 4, Path: nm("g")})}
+		burst = [][]byte{mustPkt(&sshFxpFstatPacket{ID: 10, Handle: "1"}), rd(11, "1", 0, 4), mustPkt(&sshFxpLstatPacket{ID: 12, Path: nm("g")}),
+			mustPkt(&sshFxpFstatPacket{ID: 13, Handle: "1"}), mustPkt(&sshFxpClosePacket{ID: 14, Handle: "1"})}
 	case "rw2":
 		setup = [][]byte{mustPkt(&sshFxpOpenPacket{ID: 1, Path: nm("f"), Pflags: sshFxfRead | sshFxfWrite})}
 		burst = [][]byte{rd(10, "1", 0, 3), wr(11, "1", 12, "uv"), rd(12, "1", 3, 3)}
@@ -163,6 +180,8 @@ type progOpts struct {
 	alloc        bool
 	ref          [][]byte // reference response bodies (allocator off), nil = do not compare
 	quiesce      bool
+	maxTx        uint32 // maximum payload option (0 = default)
+	txFirst      bool   // the maximum payload option is given before the allocator option
 }
 
 func responseBytes(fs []frame) [][]byte {
@@ -176,7 +195,7 @@ func responseBytes(fs []frame) [][]byte {
 func progScenario(o progOpts, prop string) explore.Scenario {
 	return func() (func(), func(*vsched.Exec) explore.Verdict) {
 		setup, burst, files := program(o.name, o.server)
-		spec := &srvSpec{server: o.server, alloc: o.alloc, setup: setup, burst: burst, files: files, hangup: -1, readOnly: o.readOnly}
+		spec := &srvSpec{server: o.server, alloc: o.alloc, setup: setup, burst: burst, files: files, hangup: -1, readOnly: o.readOnly, maxTx: o.maxTx, txFirst: o.txFirst}
 		var r *srvRun
 		var usedAtQuiescence, usedKeyOK = -1, true
 		body := func() {
@@ -280,11 +299,11 @@ func (r *srvRun) driveQ(atQuiescence func()) {
 }
 
 // reference runs the program once with the allocator off under the default schedule.
-func progReference(server, name string) [][]byte {
+func progReference(server, name string, maxTx uint32) [][]byte {
 	var ref [][]byte
 	sc := func() (func(), func(*vsched.Exec) explore.Verdict) {
 		setup, burst, files := program(name, server)
-		spec := &srvSpec{server: server, setup: setup, burst: burst, files: files, hangup: -1}
+		spec := &srvSpec{server: server, setup: setup, burst: burst, files: files, hangup: -1, maxTx: maxTx}
 		var r *srvRun
 		return func() { r = spec.start(); r.drive() }, func(e *vsched.Exec) explore.Verdict {
 			ref = responseBytes(r.frames)
@@ -306,9 +325,9 @@ func runProgs(c *reg.Ctx, prop string, alloc, compare bool) *reg.Result {
 			total.Exhaustive = false
 			break
 		}
-		o := progOpts{server: server, name: name, alloc: alloc, quiesce: alloc, readOnly: name == "romix"}
+		o := progOpts{server: server, name: name, alloc: alloc, quiesce: alloc, readOnly: name == "romix", maxTx: uint32(c.ArgInt("maxtx", 0)), txFirst: c.Arg("txfirst", "0") == "1"}
 		if compare {
-			o.ref = progReference(server, name)
+			o.ref = progReference(server, name, o.maxTx)
 		}
 		r := explore.Run(explore.Config{Prop: prop, Strategy: c.Arg("strategy", "db"), Bound: c.ArgInt("bound", 2), Ctx: c, Label: c.Part}, progScenario(o, prop))
 		total.Evaluations += r.Evaluations
@@ -374,6 +393,9 @@ func init() {
 					pj("C02/sched", "rs W=3 alloc db3", "instr-w3", "rs", "rwmix+extmix", 3, 600, true),
 					pj("C02/sched", "os W=8 db3", "instr", "os", "rwmix+cmdmix+extmix+romix", 3, 900, false),
 					pj("C02/sched", "os W=2 db3 alloc", "instr-w2", "os", "rwmix+cmdmix+extmix", 3, 600, true),
+					pj("C02/sched", "rs W=2 six reads db4", "instr-w2", "rs", "reads6", 4, 600, false),
+					pj("C02/sched", "rs W=3 six reads db3", "instr-w3", "rs", "reads6", 3, 600, false),
+					pj("C02/sched", "os W=2 six reads db3", "instr-w2", "os", "reads6", 3, 600, false),
 				}
 			} else {
 				js = []reg.Job{
@@ -382,8 +404,22 @@ func init() {
 					pj("C02/sched", "os W=2 db2", "instr-w2", "os", "rwmix+cmdmix+extmix", 2, 100, false),
 					pj("C02/sched", "os read-only W=2 db2", "instr-w2", "os", "romix", 2, 100, false),
 					pj("C02/sched", "rs W=2 alloc db2", "instr-w2", "rs", "rwmix+cmdmix+rsplit", 2, 100, true),
+					pj("C02/sched", "rs W=2 six reads db2", "instr-w2", "rs", "reads6", 2, 100, false),
+					pj("C02/sched", "os W=2 six reads db2", "instr-w2", "os", "reads6", 2, 100, false),
 				}
 			}
+			js = withPolicies(tier, js, func(j reg.Job) bool { return j.Args["server"] != "os" })
+			big := func(label, server string, alloc, txFirst bool) reg.Job {
+				j := pj("C02/sched", label, "instr-w2", server, "bigread", 1, 100, alloc)
+				j.Args["maxtx"] = "1048576"
+				if txFirst {
+					j.Args["txfirst"] = "1"
+				}
+				j.Shards = 4
+				return j
+			}
+			js = append(js, big("rs 1 MiB payloads db1", "rs", false, false), big("os 1 MiB payloads db1", "os", false, false),
+				big("rs 1 MiB payloads, allocator db1", "rs", true, false), big("os 1 MiB payloads, allocator (option given last) db1", "os", true, true))
 			if c02ExtraJobs != nil {
 				js = append(js, c02ExtraJobs(tier)...)
 			}
@@ -404,6 +440,8 @@ func init() {
 					pj("C18/sched", "rs W=2 db4", "instr-w2", "rs", "rwmix+rw3", 4, 900, true),
 					pj("C18/sched", "rs W=2 db3 read crossing EOF", "instr-w2", "rs", "rweof", 3, 900, true),
 					pj("C18/sched", "os W=3 db3", "instr-w3", "os", "rwmix+rw3", 3, 900, true),
+					pj("C18/sched", "rs W=2 db3 path kept across buffer reuse", "instr-w2", "rs", "pathkeep", 3, 600, true),
+					pj("C18/sched", "os W=2 db3 path kept across buffer reuse", "instr-w2", "os", "pathkeep", 3, 600, true),
 				}
 			} else {
 				js = []reg.Job{
@@ -413,6 +451,20 @@ func init() {
 					pj("C18/sched", "rs W=2 db2 read crossing EOF", "instr-w2", "rs", "rweof", 2, 100, true),
 					pj("C18/sched", "os W=2 db2", "instr-w2", "os", "rwmix+rw3", 2, 100, true),
 					pj("C18/sched", "os W=2 db3", "instr-w2", "os", "rw2", 3, 100, true),
+					pj("C18/sched", "rs W=2 db2 path kept across buffer reuse", "instr-w2", "rs", "pathkeep", 2, 100, true),
+					pj("C18/sched", "os W=2 db2 path kept across buffer reuse", "instr-w2", "os", "pathkeep", 2, 100, true),
+				}
+			}
+			js = withPolicies(tier, js, func(j reg.Job) bool { return j.Args["server"] != "os" })
+			for _, sv := range []string{"rs", "os"} {
+				for _, txFirst := range []bool{false, true} {
+					j := pj("C18/sched", fmt.Sprintf("%s 1 MiB payloads (payload option first: %v) db1", sv, txFirst), "instr-w2", sv, "bigread", 1, 100, true)
+					j.Args["maxtx"] = "1048576"
+					if txFirst {
+						j.Args["txfirst"] = "1"
+					}
+					j.Shards = 4
+					js = append(js, j)
 				}
 			}
 			if c18ExtraJobs != nil {
